@@ -1,7 +1,7 @@
 INIT Init
 NEXT Next
 CONSTANT Mode = "model"
-CONSTANT Depth = 2
+CONSTANT Depth = 3
 CONSTANT Variants = {1, 2, 3, 4}
 CONSTANT LenW = 4
 CONSTANT HashW = 2
